@@ -40,6 +40,8 @@ type arena struct {
 	mode int
 	buf  []byte
 	tp   map[uint8][]*message.Transform // per transform type pool (LayoutArena)
+	// equal transforms of one built object are ONE *Transform (LayoutArena)
+	interned map[string]*message.Transform
 }
 
 func newArena(mode int, size int) *arena {
@@ -50,6 +52,7 @@ func newArena(mode int, size int) *arena {
 	if a.mode == LayoutArena {
 		a.buf = make([]byte, 0, size+16)
 		a.tp = map[uint8][]*message.Transform{}
+		a.interned = map[string]*message.Transform{}
 	}
 	return a
 }
@@ -185,6 +188,27 @@ func BuildTransform(t abs.Transform) *message.Transform {
 }
 
 func buildTransform(t abs.Transform, a *arena) *message.Transform {
+	// LayoutArena: a caller that keeps its offered transforms in a table hands the SAME object to every proposal (and
+	// list position) that offers this transform
+	var key string
+	if a.mode == LayoutArena && a.interned != nil {
+		key = fmt.Sprintf("%d/%d/%v/%v/%d/%d/%x", t.Type, t.ID, t.HasAttr, t.TV, t.AttrType, t.AttrVal, t.AttrBytes)
+		if lt, ok := a.interned[key]; ok {
+			SharedTransformObjects++
+			return lt
+		}
+	}
+	lt := buildTransform0(t, a)
+	if key != "" {
+		a.interned[key] = lt
+	}
+	return lt
+}
+
+// SharedTransformObjects counts transforms handed to the library as an object that is referenced more than once.
+var SharedTransformObjects int64
+
+func buildTransform0(t abs.Transform, a *arena) *message.Transform {
 	lt := &message.Transform{TransformType: t.Type, TransformID: t.ID}
 	if t.HasAttr {
 		lt.AttributePresent = true
